@@ -71,7 +71,42 @@ def decomposed(draw, kind, tier='quick', max_subs=3):
         # layout of every requirement text: comments before / after it, line breaks, with or without the final ';'
         'decor': draw(st.lists(st.integers(0, len(DECOR) - 1), min_size=4, max_size=4)) if draw(st.booleans()) else None,
         'via_file': draw(st.sampled_from([False, False, False, True])),
+        'late_inline': draw(st.integers(0, 2)) if draw(st.integers(0, 3)) == 0 else None,
+        'extra': None,
     }
+    if draw(st.integers(0, 5)) == 0:
+        # a named requirement whose text also stands written out inside a requirement defined before it
+        pairs = [(s1, s2) for s1 in cands for s2 in cands if s1 != s2 and s1[0] not in ('var', 'const') and s1 in set(F.subterms(s2))]
+        # after pastify(): prefer a written-out copy that the pastifier has to delay inside the earlier requirement
+        delayed = [(s1, s2) for s1, s2 in pairs if kind == 'dt_on_past' and any(d != 0 for d in occurrences_delay(s2, s1))]
+        pairs = delayed or pairs
+        if kind == 'dt_on_past' and not delayed:
+            # build one: a requirement in which the written-out copy stands next to a bounded future operator
+            small = [s for s in cands if s[0] not in ('var', 'const')] or [('pred', '>=', ('var', vs[0]), ('const', 1.0))]
+            s1 = draw(st.sampled_from(sorted(small, key=repr)))
+            b = draw(st.integers(1, 3))
+            fut = ('tun', draw(st.sampled_from(['eventually', 'always'])), draw(st.integers(0, b)), b,
+                   ('pred', draw(st.sampled_from(['>=', '<'])), ('var', draw(st.sampled_from(vs))), ('const', 1.0)))
+            s2 = ('bin', draw(st.sampled_from(['and', 'or', 'implies'])), s1, fut)
+            f = ('bin', draw(st.sampled_from(['and', 'or'])), s2, f)
+            case['formula'] = f
+            if 'trace' in case:
+                n = (F.horizon(f) or 0) + draw(st.sampled_from([2, 3, 5]))
+                case['trace'] = draw(F.traces(vs, n=n))
+            pairs = [(s1, s2)]
+        if pairs:
+            s1, s2 = draw(st.sampled_from(sorted(pairs, key=repr)))
+            case['subs'] = sorted([s1, s2], key=lambda s: (F.size(s), repr(s)))
+            case['late_inline'] = case['subs'].index(s1)
+    if draw(st.integers(0, 3)) == 0:
+        g, _ = draw(F.formulas(p.copy(max_depth=2), variables=vs))
+        if kind == 'dt_on_past' and draw(st.booleans()):
+            # ... whose look-ahead is longer than that of the requirement that is monitored
+            used_f = F.fvars(case['formula']) or vs
+            g = ('tun', draw(st.sampled_from(['always', 'eventually'])), 0, (F.horizon(case['formula']) or 0) + draw(st.integers(1, 3)),
+                 ('pred', draw(st.sampled_from(['<', '>='])), ('var', draw(st.sampled_from(sorted(used_f)))), ('const', 2.0)))
+        if set(F.fvars(g)) <= set(F.fvars(case['formula'])) and F.fvars(g):
+            case['extra'] = g
     if kind.startswith('dt'):
         n = draw(F.trace_lengths(10))
         if kind == 'dt_on_past':
@@ -81,6 +116,32 @@ def decomposed(draw, kind, tier='quick', max_subs=3):
         case['signals'] = {v: draw(grid_signal(0, max_samples=6)) for v in vs}
         case['chunks'] = draw(st.integers(1, 3))
     return case
+
+
+def occurrences_delay(f, target):
+    """For a pastified host f: set of (remaining horizon - own horizon) over all occurrences of sub-term target."""
+    out = set()
+    ht = F.horizon(target) or 0
+
+    def walk(g, R):
+        if g == target:
+            out.add(R - ht)
+        k = g[0]
+        kids = F.children(g)
+        if not kids:
+            return
+        op = F.op_of(g)
+        if op in ('eventually[]', 'always[]', 'until[]'):
+            for c in kids:
+                walk(c, R - g[3])
+        elif op in ('next', 's_next'):
+            walk(kids[0], R - 1)
+        else:
+            hg = F.horizon(g) or 0
+            for c in kids:
+                walk(c, hg)
+    walk(f, F.horizon(f) or 0)
+    return out
 
 
 DECOR = [
@@ -125,12 +186,22 @@ def modular_texts(case, printer):
     order = sorted(range(len(subs)), key=lambda i: -F.size(subs[i]))
     for i in order:
         main = replace(main, subs[i], ('var', names[i]))
+    late = case.get('late_inline')
+    if late is not None and not (0 <= late < len(subs)):
+        late = None
     for i, s in enumerate(subs):
         body = s
         for j in order:
-            if j != i and F.size(subs[j]) < F.size(s):
+            # the sub-specification `late` is written out in the other bodies (not referenced by name) and defined last
+            if j != i and j != late and F.size(subs[j]) < F.size(s):
                 body = replace(body, subs[j], ('var', names[j]))
         bodies.append((names[i], printer(with_consts(body))))
+    if late is not None:
+        bodies.append(bodies.pop(late))
+    extra = case.get('extra')
+    if extra is not None:
+        # a further requirement that nothing refers to (it has its own horizon)
+        bodies.append(('watchdog', printer(with_consts(from_json(extra)))))
     return bodies, printer(with_consts(main)), const_decl
 
 
@@ -181,7 +252,7 @@ def build_modular(case, inline=False):
     if prev and case['delivery'] == 'assertions':
         # the object was first parsed with another text that binds the same names to other formulas, then the text was
         # edited and parsed again
-        pc = dict(case, formula=prev['formula'], subs=prev['subs'], consts=[], bound_const=None)
+        pc = dict(case, formula=prev['formula'], subs=prev['subs'], consts=[], bound_const=None, extra=None, late_inline=None)
         pbodies, pmain, _ = modular_texts(pc, printer_for(kind))
         was_req = prev.get('signal_was_requirement')
         if was_req:
@@ -189,7 +260,8 @@ def build_modular(case, inline=False):
             # the API: the parser declares it when it meets it)
             pbodies = list(pbodies) + [(was_req, pmain)]
             pmain = was_req
-            declared = [v for v in declared if v != was_req]
+            if not prev.get('declare_was_req'):
+                declared = [v for v in declared if v != was_req]
         ptext = ' '.join('%s = %s;' % (n, t) for n, t in pbodies) + ' out = ' + pmain
         pused = [v for v in case['vars'] if v in F.fvars(from_json(prev['formula']))]
         if prev.get('mode') == 'redefine':
